@@ -155,14 +155,27 @@ Theorem T16_gram_schmidt_indices : forall nc N k, (2 <= nc)%nat -> (k < N)%nat -
      ~ In j (ortho_targets (nth k' (build_ortho nc true 0 N []) []))).
 Proof. exact gram_schmidt_indices. Qed.
 
-(* ---- GMRES.run / GMRES.reset: restart bookkeeping (Model/KrylovGmres.v; which estimates were below the tolerance is an input).
-   A cycle stops at the first Arnoldi step k >= N_min whose residual estimate is below the tolerance and otherwise runs
-   N_max steps (K = number of steps, cv = converged) *)
+(* ---- GMRES.run / GMRES.reset: restart bookkeeping (Model/KrylovGmres.v).  Inputs observed on the run, per Arnoldi step:
+   below = `error < res`, exhausted = `error <= eps * (residual at the start of the cycle)`.
+   A cycle stops at the first Arnoldi step whose residual estimate is below the tolerance and that is either a step k >= N_min or
+   has exhausted the Krylov space (estimate at the rounding level); otherwise it runs N_max steps
+   (K = number of steps, cv = converged) *)
 Theorem T16_gmres_stop_rule : forall N_min N_max fl K cv, gm_inner N_min 0 N_max fl = (K, cv) ->
-  (cv = true -> (1 <= K <= N_max)%nat /\ nth (K - 1) fl false = true /\ (N_min <= K - 1)%nat /\
-                (forall j, (j < K - 1)%nat -> ~ (nth j fl false = true /\ (N_min <= j)%nat))) /\
-  (cv = false -> K = N_max /\ (forall j, (j < N_max)%nat -> ~ (nth j fl false = true /\ (N_min <= j)%nat))).
+  (cv = true -> (1 <= K <= N_max)%nat /\ gm_below fl (K - 1) = true /\
+                ((N_min <= K - 1)%nat \/ gm_exh fl (K - 1) = true) /\
+                (forall j, (j < K - 1)%nat ->
+                   ~ (gm_below fl j = true /\ ((N_min <= j)%nat \/ gm_exh fl j = true)))) /\
+  (cv = false -> K = N_max /\
+                 (forall j, (j < N_max)%nat ->
+                    ~ (gm_below fl j = true /\ ((N_min <= j)%nat \/ gm_exh fl j = true)))).
 Proof. exact gm_stop_rule. Qed.
+
+(* an exhausted Krylov space (estimate below the tolerance AND at the rounding level) ends the run whatever N_min is:
+   no Arnoldi step is made on the zero vector (the 0/0 of finding F16.6) *)
+Theorem T16_gmres_exhausted_stops : forall N_min N_max fl k, (k < N_max)%nat ->
+  gm_below fl k = true -> gm_exh fl k = true ->
+  (fst (gm_inner N_min 0 N_max fl) <= S k)%nat /\ snd (gm_inner N_min 0 N_max fl) = true.
+Proof. exact gm_exhausted_stops. Qed.
 
 (* at most `restart` cycles of 1..N_max steps; every cycle but the last one ran N_max steps without convergence;
    a run that never converged used all `restart` cycles *)
@@ -195,13 +208,16 @@ Theorem T16_gmres_restart_state : forall N_min N_max restart ib fls,
      (11, c, 0, 1)%nat :: map (fun k => (11, c, k, S k)%nat) (seq 1 K) ++ map (fun i => (12, c, i, 0)%nat) (seq 0 (S K))).
 Proof. exact gmres_restart_state. Qed.
 
-(* GMRES(2), N_min = 0, restart = 3: first cycle without convergence, second converges in its step 1 *)
+(* GMRES(2), N_min = 0, restart = 3: first cycle without convergence, second converges in its step 1;
+   N_min = 5: an exhausted step 0 stops the run (1x1 system with the default options), a merely small one does not *)
 Example T16_example_gmres :
-  gmres_events 0 2 3 false [[false; false]; [false; true]] =
+  let n := (false, false) in let b := (true, false) in let x := (true, true) in
+  gmres_events 0 2 3 false [[n; n]; [n; b]] =
   [(14,0,0,0); (10,0,0,0); (11,0,0,1); (11,0,1,2); (12,0,0,0); (12,0,1,0); (13,0,0,0); (14,1,0,0); (10,1,0,0);
    (11,1,0,1); (11,1,1,2); (12,1,0,0); (12,1,1,0); (15,0,0,0)]%nat /\
-  gmres_iters 0 2 3 false [[false; false]; [false; true]] = [2; 2]%nat /\
-  gmres_iters 1 3 2 false [[true; true; false]; []] = [2]%nat /\ gmres_iters 1 3 2 false [[true; false; false]; []] = [3; 3]%nat /\
+  gmres_iters 0 2 3 false [[n; n]; [n; b]] = [2; 2]%nat /\
+  gmres_iters 1 3 2 false [[b; b; n]; []] = [2]%nat /\ gmres_iters 1 3 2 false [[b; n; n]; []] = [3; 3]%nat /\
+  gmres_iters 5 20 10 false [[x]] = [1]%nat /\ gmres_iters 5 3 2 false [[b; b; b]; [b; x]] = [3; 2]%nat /\
   gmres_events 5 20 10 true [] = [(14,0,0,0); (10,0,0,0)]%nat.
 Proof. vm_compute. repeat split; reflexivity. Qed.
 
@@ -264,6 +280,7 @@ Print Assumptions T16_shift_twice.
 Print Assumptions T16_shift_shared_operator_refuted.
 Print Assumptions T16_gram_schmidt_indices.
 Print Assumptions T16_gmres_stop_rule.
+Print Assumptions T16_gmres_exhausted_stops.
 Print Assumptions T16_gmres_cycles.
 Print Assumptions T16_gmres_matvec_count.
 Print Assumptions T16_gmres_restart_state.
